@@ -597,6 +597,14 @@ theorem C08_weight_input (ctx : List Event) (x x' : Pub) (hx : x.ok) (hx' : x'.o
     x = x' ∧ A = A' ∧ lrs = lrs' ∧ a1 = a1' ∧ b = b' ∧ r1 = r1' ∧ s1 = s1' ∧ d1 = d1' :=
   beforeWeight_inj_data ctx x x' hx hx' A A' lrs lrs' a1 b a1' b' r1 s1 r1' s1' d1 d1' hd h
 
+/-- **C08 (a rewrite that keeps the property).** Weights taken as successive powers of ONE non-zero draw (harmless
+    rewrite H21) still let no defects cancel: a weighted sum of residuals that vanishes for more than `k` values of
+    the draw has all residuals zero. The factor vectors `(ρ, ρ², …, ρ^k)` span `F^k` (Vandermonde), which is why the
+    common-kernel attack finds nothing on such a verifier — as it must not. -/
+theorem C08_power_weights_sound (k : ℕ) (R : ℕ → M) (S : Finset F) (hS : k < S.card) (h0 : ∀ ρ ∈ S, ρ ≠ 0)
+    (h : ∀ ρ ∈ S, ∑ i ∈ range k, ρ ^ (i + 1) • R i = 0) : ∀ i < k, R i = 0 :=
+  power_weights_sound k R S hS h0 h
+
 open Model.Transcript in
 /-- **C08 (the weight generator's input).** The weight transcript carries one digest per member, in batch order, and
     determines every one of them; a digest has `8 · weightDigestBytes = 64` bits, the width the correspondence check
